@@ -1215,6 +1215,9 @@ def flatten_history(
     if len(existing_history.hash_lists) == 0:
         raise errors.NoMHLHistoryException(root_path)
 
+    # the packing list is written even if the history holds no file record at all (only empty folders)
+    packing_list = session.new_hash_lists[collection_history]
+
     for hash_list in existing_history.hash_lists:
         for media_hash in hash_list.media_hashes:
             if not media_hash.is_directory:
